@@ -57,7 +57,7 @@ def selftest():
 
 def plan(tier, seed):
     cases = []
-    n = 70 if tier == "quick" else 1200
+    n = 70 if tier == "quick" else 4000
     for i in range(n):
         for target in wo.TARGETS:
             cases.append({"kind": "gen", "target": target, "i": i, "seed": seed})
@@ -66,7 +66,7 @@ def plan(tier, seed):
         if e["fmt"] in corpus.WAVEFUNCTION_FORMATS:
             cases.append({"kind": "corpus", "file": e["file"], "fmt": e["fmt"], "explicit": e["explicit"],
                           "cli": (len(cases) % (4 if tier == "quick" else 2) == 0)})
-    for i in range(5 if tier == "quick" else 40):
+    for i in range(5 if tier == "quick" else 200):
         cases.append({"kind": "beyond", "i": i, "seed": seed})
     return cases
 
